@@ -419,6 +419,20 @@ def levels_case(rep, drv, rng):
 	want = {l: unfr(v) for l, v in zip(down_first, mo2['local'])}
 	if {l: F(float(loc2[l])) for l in order} != want:
 		rep.diff('levels', 'echelon_to_local on %s: python %s model %s' % (ech, loc2, {k: str(v) for k, v in want.items()}), case, oracle=False, theorem=THEOREM)
+		return
+	# ... and back: echelon -> local -> echelon is the suffix-minimum map of the model (theorem toEchelon_toLocal)
+	with warnings.catch_warnings():
+		warnings.simplefilter('ignore')
+		try:
+			ech2 = local_to_echelon_base_stock_levels(net, loc2)
+		except Exception as e:
+			rep.diff('levels', 'local_to_echelon on converted levels raised %s' % err_enum(e), case, oracle=True, theorem=THEOREM); return
+	mo3 = drv.call('levels', levels=mo2['local'])
+	want3 = {l: unfr(v) for l, v in zip(down_first, mo3['echelon'])}
+	rep.exact_cmp += 1
+	if {l: F(float(ech2[l])) for l in order} != want3:
+		rep.diff('levels', 'echelon %s -> local -> echelon: python %s model %s' % (ech, ech2, {k: str(v) for k, v in want3.items()}), case, oracle=False,
+				 theorem='Stockpyl.Graph.toEchelon_toLocal')
 
 
 # ------------------------------------------------------------------ products / BOM views (reference test)
